@@ -70,6 +70,13 @@ pub fn err_text(e: &lexpr::parse::Error) -> String {
     }
 }
 
+pub fn err_text_str(s: &str) -> &str {
+    match s.find(" at line ") {
+        Some(i) => &s[..i],
+        None => s,
+    }
+}
+
 pub fn category(e: &lexpr::parse::Error) -> &'static str {
     match e.classify() {
         lexpr::parse::error::Category::Io => "io",
